@@ -1,5 +1,6 @@
 import BreezyVerif.Lemmas.C29CK
 import BreezyVerif.Lemmas.C29Misc
+import BreezyVerif.Lemmas.C29Req
 /-!
 C29 — smart protocol messages survive the wire unchanged.
 
@@ -275,5 +276,219 @@ theorem req_roundtrip (w : List Bytes → Bool) (args : List Bytes) (body : Opti
     rw [h, Req.feed_init_encode w args body rest hok hw]
 
 example : Req.argsOk [[103, 101, 116], [47, 97]] = true := by decide
+
+/-! ## readv offsets -/
+
+/-- `_deserialise_offsets(_serialise_offsets(l)) == l` for EVERY list of (start, length)
+pairs (any length, unbounded numbers) -/
+theorem offsets_roundtrip (l : List (Nat × Nat)) :
+    deserialiseOffsets (serialiseOffsets l) = some l :=
+  deserialiseOffsets_serialiseOffsets l
+
+example : deserialiseOffsets (serialiseOffsets [(0, 1), (4096, 65536), (1000000000, 0)])
+    = some [(0, 1), (4096, 65536), (1000000000, 0)] := offsets_roundtrip _
+
+/-- rejected: a line without / with two commas, a non-number -/
+example : deserialiseOffsets [49, 10, 50, 44, 51] = none ∧ deserialiseOffsets [49, 44, 50, 44, 51] = none ∧
+    deserialiseOffsets [49, 44, 120] = none ∧ deserialiseOffsets [10, 49, 44, 50, 10, 10] = some [(1, 2)] := by
+  decide
+
+/-! ## conventional request on top of the v3 framing (`ConventionalRequestHandler`) -/
+
+/-- the calls `ConventionalRequestHandler` should have made on its request handler after a request -/
+def rqExpected (args : Bytes) (body : RespBody) : Rq :=
+  { expecting := .nothing,
+    calls := [RqCall.args args] ++
+      (match body with
+       | .none_ => []
+       | .body b => [RqCall.body b]
+       | .stream cs err => cs.map RqCall.body ++
+          (match err with | none => [] | some e => [RqCall.postBodyError e])) ++ [RqCall.end_],
+    finished := true, responses := 1 }
+
+/-- Every conventional request — `call`, `call_with_body_bytes`, `call_with_body_readv_array`
+(a body of serialised offsets), `call_with_body_stream` with any number of chunks, complete
+or cut short by an error — reaches the server's request handler unchanged: `args_received`
+with the argument structure, one `accept_body` per body part in order, the error structure of
+an aborted stream through `post_body_error_received`, then `end_received`; exactly one
+response is sent.  `w`: the verb waits for a body (a verb that answers in `do()` gets no body). -/
+theorem rq_handler_roundtrip (w : Bool) (headers args : Bytes) (body : RespBody)
+    (hw : w = true ∨ body = .none_) :
+    Rq.run w {} (.headers headers :: ((reqParts args body).map Part.ev ++ [.end_]))
+      = .ok (rqExpected args body) := by
+  have hmap : ∀ l : List Bytes, List.map Part.ev (List.map Part.bytes l) = l.map Ev.bytes := by
+    intro l; simp [Part.ev]
+  cases body with
+  | none_ => cases w <;> simp [reqParts, Rq.run, Rq.step, Part.ev, rqExpected]
+  | body b =>
+    rcases hw with rfl | h
+    · simp [reqParts, Rq.run, Rq.step, Part.ev, rqExpected]
+    · cases h
+  | stream cs err =>
+    rcases hw with rfl | h
+    · cases err with
+      | none =>
+        simp only [reqParts, List.append_nil, List.map_append, List.map_cons, List.map_nil,
+          List.cons_append, List.nil_append, Rq.run, Rq.step, Part.ev, hmap]
+        simp [Rq.run_append, Rq.run_bytes, Rq.run, Rq.step, rqExpected]
+      | some e =>
+        simp only [reqParts, List.map_append, List.map_cons, List.map_nil,
+          List.cons_append, List.nil_append, Rq.run, Rq.step, Part.ev, hmap, List.append_assoc]
+        simp [Rq.run_append, Rq.run_bytes, Rq.run, Rq.step, rqExpected]
+    · cases h
+
+example : Rq.run true {} (.headers [100, 101] ::
+      ((reqParts [108, 101] (.stream [[1], [2, 3]] (some [108, 101]))).map Part.ev ++ [.end_]))
+    = .ok { expecting := .nothing, finished := true, responses := 1,
+            calls := [.args [108, 101], .body [1], .body [2, 3], .postBodyError [108, 101], .end_] } := by
+  simp [reqParts, Rq.run, Rq.step, Part.ev]
+
+/-- a body sent to a verb that answered in `do()` is a protocol error, not silently dropped -/
+example : Rq.run false {} (.headers [] :: ((reqParts [108, 101] (.body [1])).map Part.ev ++ [.end_]))
+    = .error .unexpectedBytes := by simp [reqParts, Rq.run, Rq.step, Part.ev]
+
+/-- what the command finally executes with: exactly the bytes of the body parts sent -/
+theorem rq_executed_body (args : Bytes) (body : RespBody) :
+    executedBody (rqExpected args body).calls = some (match body with
+      | .none_ => []
+      | .body b => b
+      | .stream cs _ => cs.flatten) := by
+  cases body with
+  | none_ => simp [executedBody, rqExpected]
+  | body b => simp [executedBody, rqExpected]
+  | stream cs err =>
+    have : ∀ l : List Bytes, (l.map RqCall.body).flatMap (fun c => match c with | .body b => b | _ => [])
+        = l.flatten := by
+      intro l; induction l with
+      | nil => rfl
+      | cons a l ih => simp [List.flatMap_cons, ih]
+    cases err <;> (simp [executedBody, rqExpected, List.flatMap_append]; try exact this cs)
+
+/-- WITNESS (known finding F16, `v3-request-stream-error-ignored`): the error of an aborted
+body stream reaches `post_body_error_received` (`rq_handler_roundtrip`), which is a no-op in
+`SmartServerRequestHandler`: `end_received` then runs the command with the truncated body,
+exactly as for a complete stream. -/
+theorem req_stream_error_executed_witness :
+    executedBody (rqExpected [108, 101] (.stream [[97]] (some [108, 101]))).calls = some [97] ∧
+    executedBody (rqExpected [108, 101] (.stream [[97]] none)).calls = some [97] := by decide
+
+/-! ### bytes on the wire → handler state (framing and handler composed) -/
+
+/-- Server side, end to end: the bytes `ProtocolThreeRequester` writes for a conventional
+request (after the version marker, which the medium consumes), followed by any `rest`,
+delivered in ANY reads: the decoder finishes, `unused_data = rest` (kept for the next
+request), and the request handler has received exactly the request. -/
+theorem v3_request_roundtrip (w : Bool) (headers args : Bytes) (body : RespBody) (rest : Bytes)
+    (hw : w = true ∨ body = .none_)
+    (hh : headers.length < 4294967296) (hp : V3.partsOk (reqParts args body) = true)
+    (segs : List Bytes) (hne : segs ≠ [])
+    (h : segs.flatten = v3EncodeBody headers (reqParts args body) ++ rest) :
+    (feedAll V3.feed (V3.init false) segs).finished = true ∧
+    (feedAll V3.feed (V3.init false) segs).unused = rest ∧
+    Rq.run w {} (feedAll V3.feed (V3.init false) segs).events = .ok (rqExpected args body) := by
+  rw [v3_roundtrip_server headers _ rest hh hp segs hne h]
+  exact ⟨rfl, rfl, rq_handler_roundtrip w headers args body hw⟩
+
+/-- Client side, end to end (handler with the F15 fix, the code in /repo): the bytes
+`ProtocolThreeResponder.send_response` writes, followed by any `rest`, in ANY reads:
+decoder finished, `unused_data = rest`, the response handler holds exactly the response. -/
+theorem v3_response_roundtrip_fixed (ok : Bool) (headers args : Bytes) (body : RespBody) (rest : Bytes)
+    (hh : headers.length < 4294967296) (hp : V3.partsOk (respParts ok args body) = true)
+    (segs : List Bytes) (hne : segs ≠ [])
+    (h : segs.flatten = v3Encode headers (respParts ok args body) ++ rest) :
+    (feedAll V3.feed (V3.init true) segs).finished = true ∧
+    (feedAll V3.feed (V3.init true) segs).unused = rest ∧
+    Resp.run true {} (feedAll V3.feed (V3.init true) segs).events
+      = .ok (respExpectedFixed ok args body) := by
+  rw [v3_roundtrip_client headers _ rest hh hp segs hne h]
+  exact ⟨rfl, rfl, resp_handler_roundtrip_fixed ok headers args body⟩
+
+/-- the same for the handler as found (before the F15 fix) — PARTIAL: excluding a stream
+that fails before its first chunk (`resp_stream_error_first_witness`) -/
+theorem v3_response_roundtrip_partial (ok : Bool) (headers args : Bytes) (body : RespBody) (rest : Bytes)
+    (hex : errorBeforeFirstChunk body = false)
+    (hh : headers.length < 4294967296) (hp : V3.partsOk (respParts ok args body) = true)
+    (segs : List Bytes) (hne : segs ≠ [])
+    (h : segs.flatten = v3Encode headers (respParts ok args body) ++ rest) :
+    (feedAll V3.feed (V3.init true) segs).finished = true ∧
+    (feedAll V3.feed (V3.init true) segs).unused = rest ∧
+    Resp.run false {} (feedAll V3.feed (V3.init true) segs).events
+      = .ok (respExpected ok args body) := by
+  rw [v3_roundtrip_client headers _ rest hh hp segs hne h]
+  exact ⟨rfl, rfl, resp_handler_roundtrip_partial ok headers args body hex⟩
+
+example : V3.partsOk (reqParts [108, 51, 58, 103, 101, 116, 101] (.stream [[1, 2], []] (some [108, 49, 58, 101, 101])))
+    = true := by decide
+example : V3.partsOk (respParts true [108, 50, 58, 111, 107, 101] (.stream [] (some [108, 49, 58, 101, 101]))) = true := by
+  decide
+
+/-! ## protocol 2: the client's parsing of a response -/
+
+/-- what the client should obtain from `_send_response(ok, args, body)` -/
+def v2Expected (ok : Bool) (args : List Bytes)
+    (body : Option (Sum Bytes (List Bytes × Option (List Bytes)))) : V2Resp :=
+  ⟨ok, args, if ok then (match body with
+      | none => .none_
+      | some (.inl b) => .bytes b
+      | some (.inr (cs, err)) => .stream (ckExpected cs err)) else .none_⟩
+
+/-- how the caller reads on (`expect_body`, then `read_body_bytes` or `read_streamed_body`) -/
+def v2KindOf (ok : Bool) (body : Option (Sum Bytes (List Bytes × Option (List Bytes)))) : V2Kind :=
+  if ok then (match body with
+    | none => .none_
+    | some (.inl _) => .bytes
+    | some (.inr _) => .stream) else .none_
+
+/-- Protocol 2, server → client: the bytes `SmartServerRequestProtocolTwo._send_response`
+writes — version marker, `success`/`failed`, the response tuple, then nothing, a
+length-prefixed body or a chunked stream (optionally ended by a failure) — followed by
+any `rest`: the client obtains exactly the status, the tuple, the body / the chunks and the
+failure, and stops exactly at the end of the message (`rest` is left for the next
+response).  A failed response carries no body. -/
+theorem v2_response_roundtrip (ok : Bool) (args : List Bytes)
+    (body : Option (Sum Bytes (List Bytes × Option (List Bytes)))) (rest : Bytes)
+    (hargs : Req.argsOk args = true) (hf : ok = false → body = none) :
+    v2Decode (v2KindOf ok body) (v2RespEncode ok args body ++ rest)
+      = .ok (v2Expected ok args body, rest) := by
+  simp only [Req.argsOk, Bool.and_eq_true] at hargs
+  have hsplit : ∀ tail, splitLine (encodeTuple args ++ tail) = some (joinSoh args, tail) := by
+    intro tail
+    simp only [encodeTuple, List.append_assoc, List.singleton_append]
+    exact splitLine_of_notMem _ (Req.joinSoh_no_nl hargs.2)
+  unfold v2Decode v2RespEncode
+  rw [response2_eq]
+  simp only [List.append_assoc, List.singleton_append, List.cons_append, List.nil_append]
+  rw [splitLine_of_notMem _ response2Line_no_nl]
+  simp only [ne_eq, not_true_eq_false, if_false]
+  cases ok with
+  | false =>
+    have hb := hf rfl
+    subst hb
+    simp only [Bool.false_eq_true, if_false]
+    rw [splitLine_of_notMem _ failedLine_no_nl]
+    simp only [hsplit, if_true, splitSoh_joinSoh hargs.1, List.nil_append, v2Expected,
+      Bool.false_eq_true, if_false]
+  | true =>
+    simp only [if_true]
+    rw [splitLine_of_notMem _ successLine_no_nl]
+    simp only [hsplit, success_ne_failed, if_false, ne_eq, not_true_eq_false,
+      splitSoh_joinSoh hargs.1, v2KindOf, v2Expected, if_true]
+    cases body with
+    | none => simp
+    | some b =>
+      cases b with
+      | inl b => simp only [LP.feed_init_encode]
+      | inr p =>
+        obtain ⟨cs, err⟩ := p
+        simp only [CK.feed_init_encode]
+
+example : v2Decode .stream (v2RespEncode true [[111, 107]] (some (.inr ([[1, 2]], some [[66]]))) ++ [98, 122])
+    = .ok (⟨true, [[111, 107]], .stream [.data [1, 2], .failure [[66]]]⟩, [98, 122]) :=
+  v2_response_roundtrip true [[111, 107]] (some (.inr ([[1, 2]], some [[66]]))) [98, 122] (by decide) (by simp)
+
+/-- a wrong marker / status line is rejected -/
+example : (match v2Decode .none_ [98, 122, 114, 10] with | .error .badVersion => true | _ => false) = true ∧
+    (match v2Decode .none_ (response2 ++ [111, 107, 10, 120, 10]) with | .error .badStatus => true | _ => false)
+      = true := by decide
 
 end BreezyVerif.C29
